@@ -26,6 +26,18 @@ subprocess.call(['git', '-C', '/repo', 'worktree', 'remove', '--force', wt], std
 subprocess.check_call(['git', '-C', '/repo', 'worktree', 'add', '--detach', wt, 'HEAD'], stdout=subprocess.DEVNULL, stderr=subprocess.DEVNULL)
 try:
     r = subprocess.run(['git', '-C', wt, 'apply', os.path.join(dst, 'patch.diff')], stderr=subprocess.PIPE)
+    if r.returncode != 0:
+        # /repo moved on (fix: commits): rebase the change with a 3-way apply and keep the rebased diff
+        r = subprocess.run(['git', '-C', wt, 'apply', '-3', os.path.join(dst, 'patch.diff')], stderr=subprocess.PIPE)
+        if r.returncode == 0 and not subprocess.check_output(['git', '-C', wt, 'diff', '--name-only', '--diff-filter=U']).strip():
+            subprocess.check_call(['git', '-C', wt, 'reset', '-q'])
+            shutil.copy(os.path.join(dst, 'patch.diff'), os.path.join(dst, 'patch.orig.diff'))
+            open(os.path.join(dst, 'patch.diff'), 'wb').write(subprocess.check_output(['git', '-C', wt, 'diff']))
+            meta['rebased'] = 'patch.diff was rebased (git apply -3) onto /repo HEAD after later fix: commits; the original is patch.orig.diff'
+            for k in ('demo_with_change', 'demo_without_change', 'suite_with_change'):
+                meta.pop(k, None)
+        else:
+            r = subprocess.CompletedProcess([], 1, stderr=r.stderr)
     meta['applies'] = r.returncode == 0
     if r.returncode != 0:
         meta['apply_error'] = r.stderr.decode()[-300:]
@@ -36,9 +48,10 @@ try:
         def run_demo(path):
             p = subprocess.run(['timeout', '-k', '5', '300', '/venv/bin/python', demo, path], stdout=subprocess.PIPE, stderr=subprocess.STDOUT, cwd='/tmp', start_new_session=True)
             return p.returncode, p.stdout.decode()[-300:]
-        meta['demo_with_change'] = run_demo(wt)[0]
-        meta['demo_without_change'] = run_demo('/repo')[0]
-        if not a.nosuite:
+        if 'demo_with_change' not in meta or 'demo_without_change' not in meta:
+            meta['demo_with_change'] = run_demo(wt)[0]
+            meta['demo_without_change'] = run_demo('/repo')[0]
+        if not a.nosuite and 'suite_with_change' not in meta:
             p = subprocess.run('cd %s && timeout -k 5 1500 /venv/bin/python -m pytest -q -p no:cacheprovider --timeout=900 tests 2>&1 | tail -1' % wt,
                                shell=True, stdout=subprocess.PIPE)
             meta['suite_with_change'] = p.stdout.decode().strip()[-120:]
